@@ -5,6 +5,7 @@
    empty DropFrames (RemoveUninteresting is then the identity) and no comment.
    [absurl f] = "url.Parse(f) succeeds and the URL is absolute" (net/url is an oracle).
    No proofs in this file. *)
+From PV Require Import M_Prune.
 From PV Require Export M_Symbolize.
 Open Scope Z_scope.
 
@@ -161,3 +162,59 @@ Definition loc_rows (p : profile) (lid : Z) : list (string * bool) :=
   end.
 Definition traces_view (p : profile) : list (list (string * bool)) :=
   filter (fun t => negb (is_nil t)) (map (fun s => flat_map (loc_rows p) (s_loc s)) (p_sample p)).
+
+(* ------------------------------------------------------------------ drop_frames / keep_frames
+   fetchProfiles calls Profile.RemoveUninteresting right after Symbolize (fetch.go:84; its error is
+   ignored): frames whose WHOLE simplified function name matches drop_frames (and not keep_frames)
+   are cut off together with everything they call (M_Prune.remove_uninteresting, C11's model of
+   profile/prune.go).  Names only exist after symbolization, so this step is where symbolizing can
+   change stack depths -- legitimately only for names that match as a whole.  In the C12 streams the
+   expressions are bare alternations of literal names (general regexps are C11's), for which "matches
+   as a whole" is decided here without any regexp oracle: *)
+Definition alt_match (e n : string) : bool := existsb (String.eqb n) (split_on "|"%char e).
+
+(* the two expressions are handed to C11's Prune under the keys "D" and "K" *)
+Definition ru_M (p : profile) (rx n : string) : bool :=
+  if String.eqb rx "D" then alt_match (p_dropframes p) n else alt_match (p_keepframes p) n.
+
+Definition remove_uninteresting_alt (p : profile) : profile :=
+  if str_empty (p_dropframes p) then p
+  else M_Prune.prune (ru_M p) p "D" (if str_empty (p_keepframes p) then None else Some "K"%string).
+
+(* some function of the profile may be dropped: its simplified name is an alternative of drop_frames
+   and not one of keep_frames *)
+Definition droppable (p : profile) : bool :=
+  negb (str_empty (p_dropframes p)) &&
+  existsb (fun f => negb (str_empty (f_name f)) && alt_match (p_dropframes p) (M_Prune.simplify_func (f_name f)) &&
+                    negb (negb (str_empty (p_keepframes p)) && alt_match (p_keepframes p) (M_Prune.simplify_func (f_name f))))
+          (p_function p).
+
+(* the pipeline with the step in place *)
+Definition fetch_generic_ru (plug : plugin_t) (mode : string) (absurl : string -> bool) (src : string) (p : profile) : foutcome :=
+  let p0 := add_fake p in
+  let cm := if str_empty src then ([], p_mapping p0) else collect_sources src (p_mapping p0) in
+  let p1 := with_maps_locs p0 (snd cm) (p_location p0) in
+  match plug mode (fst cm) p1 with
+  | None => FPanic
+  | Some (p2, err, ptr_ok, calls) =>
+      if err then FErr calls
+      else
+        let p2r := remove_uninteresting_alt p2 in
+        let p3 := with_maps_locs p2r (map (unsource absurl) (p_mapping p2r)) (p_location p2r) in
+        if check_valid p3 && ptr_ok then FOut p3 calls else FErr calls
+  end.
+
+Definition fetch_cli_ru (plug : plugin_t) (c : cliopts) (mode : string) (absurl : string -> bool) (src : string) (p : profile) : foutcome :=
+  match fetch_generic_ru plug mode absurl src (cli_input c p) with
+  | FOut p3 calls => FOut (add_comment c p3) calls
+  | FErr calls => FErr calls
+  | FPanic => FPanic
+  end.
+
+(* a profile with the samples of another one (what pruning may legitimately change) *)
+Definition with_stacks_of (p q : profile) : profile :=
+  {| p_sampletype := p_sampletype p; p_defaultsampletype := p_defaultsampletype p; p_sample := p_sample q;
+     p_mapping := p_mapping p; p_location := p_location p; p_function := p_function p; p_comments := p_comments p;
+     p_docurl := p_docurl p; p_dropframes := p_dropframes p; p_keepframes := p_keepframes p;
+     p_timenanos := p_timenanos p; p_durationnanos := p_durationnanos p; p_periodtype := p_periodtype p;
+     p_period := p_period p |}.
